@@ -135,6 +135,7 @@ fn check_pipe(obs: &mut Obs, pipe: &Pipe) {
   fn calls(s: &Src) -> usize {
     match s {
       Src::OfFn(_) | Src::Start(_) | Src::Create(_) => 1,
+      Src::FromFuture(_) | Src::FromFutureResult(_) => 1,
       Src::Defer(i) => 1 + calls(i),
       _ => 0,
     }
@@ -249,6 +250,17 @@ pub fn plan(tier: Tier) -> Plan {
       jobs.push(script_job(seq.clone(), len));
       if seq.len() <= 2 {
         for s in cold_sources() {
+          jobs.push(src_job(s, seq.clone()));
+        }
+      }
+      if seq.len() <= 1 {
+        // asynchronous cold sources: futures / streams are run once per subscription
+        for s in [
+          Src::FromFuture(3),
+          Src::FromFutureResult(Ok(3)),
+          Src::FromFutureResult(Err(E::E1)),
+          Src::StreamCount(2),
+        ] {
           jobs.push(src_job(s, seq.clone()));
         }
       }
